@@ -22,7 +22,9 @@ def set : List (κ × Nat) → κ → Nat → List (κ × Nat)
   | (k', v') :: r, k, v => if k' = k then (k, v) :: r else (k', v') :: set r k v
 
 /-- `delete(m, k)` -/
-def erase (m : List (κ × Nat)) (k : κ) : List (κ × Nat) := m.filter (fun e => e.1 ≠ k)
+def erase : List (κ × Nat) → κ → List (κ × Nat)
+  | [], _ => []
+  | (k', v) :: r, k => if k' = k then erase r k else (k', v) :: erase r k
 
 /-- `for k, v := range m { m[k] = f(v) }` -/
 def mapVals (f : Nat → Nat) (m : List (κ × Nat)) : List (κ × Nat) := m.map (fun e => (e.1, f e.2))
